@@ -8,7 +8,9 @@ import (
 	"bytes"
 	"encoding/hex"
 	"fmt"
+	"regexp"
 	"sort"
+	"strings"
 	"time"
 
 	abci "github.com/tendermint/tendermint/abci/types"
@@ -64,7 +66,7 @@ type hGenesis struct {
 	DAOOwner  int   `json:"dao_owner"`
 	DAOTokens int64 `json:"dao_tokens"`
 	// extra pos genesis map entries (signing infos / missed blocks for foreign addresses)
-	ExtraSigning int `json:"extra_signing,omitempty"`
+	ExtraSigning int   `json:"extra_signing,omitempty"`
 	KeepRecent   int64 `json:"keep_recent"`
 	KeepEvery    int64 `json:"keep_every"`
 }
@@ -90,8 +92,8 @@ type hTx struct {
 	KeyInSig bool   `json:"key_in_sig,omitempty"`
 	Memo     string `json:"memo,omitempty"`
 	Entropy  int64  `json:"entropy"`
-	Mut      string `json:"mut,omitempty"`  // mutation applied after signing
-	Mode     string `json:"mode,omitempty"` // "" deliver, check, simulate
+	Mut      string `json:"mut,omitempty"`    // mutation applied after signing
+	Mode     string `json:"mode,omitempty"`   // "" deliver, check, simulate
 	Replay   int    `json:"replay,omitempty"` // >0: resend the n-th most recent committed tx instead
 }
 
@@ -602,6 +604,10 @@ func (ch *chain) buildEvidence(b *hBlock, h int64) []abci.Evidence {
 		var addr []byte
 		var power int64
 		if e.Val < 0 || len(ever) == 0 {
+			// known finding: evidence for a never-registered address panics BeginBlock; once listed it is left out
+			if ch.c != nil && ch.c.Excluding(sigUnknownEvidence) {
+				continue
+			}
 			addr = bytes.Repeat([]byte{0xDD}, sdk.AddrLen)
 			power = 1
 		} else {
@@ -627,4 +633,31 @@ func (ch *chain) buildEvidence(b *hBlock, h int64) []abci.Evidence {
 			Height: ih, Time: ch.now.Add(-time.Duration(age) * time.Second), TotalVotingPower: 0})
 	}
 	return out
+}
+
+const sigUnknownEvidence = `C07/beginblock-panics: ERROR: Codespace: pos Code: # Message: "Warning: the DS evidence is unable to be handled"`
+
+// panicClass shortens a panic value to a stable class for labels.
+func panicClass(pv interface{}) string {
+	s := fmt.Sprint(pv)
+	s = strings.Join(strings.Fields(s), " ")
+	s = panicHexRe.ReplaceAllString(s, "#")
+	out := []rune(s)
+	if len(out) > 90 {
+		out = out[:90]
+	}
+	return string(out)
+}
+
+var panicHexRe = regexp.MustCompile(`[0-9A-Fa-f]{6,}|[0-9]+`)
+
+func indexAny(s, chars string) int {
+	for i, r := range s {
+		for _, c := range chars {
+			if r == c {
+				return i
+			}
+		}
+	}
+	return -1
 }
